@@ -91,7 +91,7 @@ def py_loop(eq, term, rep, rhs, lhs):                      # Replace.loopA (what
 # ====================================================================================================
 def impl(case):
     return {"rep": impl_rep, "exh": impl_exh, "upd": impl_upd, "yaml": impl_yaml, "reuse": impl_reuse, "npy": impl_npy,
-            "mfile": impl_mfile, "err": impl_err}[case["kind"]](case)
+            "mfile": impl_mfile, "err": impl_err, "pop": impl_pop}[case["kind"]](case)
 
 def impl_rep(case):
     from pyrates.backend.parser import replace
@@ -174,17 +174,22 @@ def impl_upd(case):
 VT = {"constant": "VConst", "state_var": "VState", "input": "VIn", "output": "VOut"}
 
 def spec8(v):
-    """(kind, 8*value) of a variable definition, read with PyRates' own _parse_defaults"""
+    """(kind, code of the value) of a variable definition, read with PyRates' own _parse_defaults"""
     from pyrates.frontend.template.operator import _parse_defaults
     d = _parse_defaults(v)
-    x = Fr(float(d["value"])) * 8
-    assert x.denominator == 1, v
-    return [VT[d["vtype"]], int(x)]
+    return [VT[d["vtype"]], zcode(d["value"])]
+
+def zcode(v):
+    """injective integer code of a float (a dyadic rational p/2^e in lowest terms): p*4096 + e.  The models only compare
+    values, so any injective code will do; it keeps tiny (2^-100), huge (2^100) and 1+2^-45 apart exactly.  -0.0 and 0.0,
+    2 and 2.0 get the same code: they are equal for Python's == (which is what add_to_dict uses), too."""
+    x = Fr(float(v))
+    e = x.denominator.bit_length() - 1
+    assert x.denominator == 1 << e and e < 4096, v
+    return x.numerator * 4096 + e
 
 def val8(v):
-    x = Fr(float(v)) * 8
-    assert x.denominator == 1, v
-    return int(x)
+    return zcode(v)
 
 def build_node(nd, ops, cls):
     return cls(name=nd["name"], operators={ops[o]: dict(u) for o, u in nd["ops"]})
@@ -385,6 +390,54 @@ def impl_err(case):
     finally:
         if os.path.exists("e.yaml"):
             os.remove("e.yaml")
+        pyr.reset_pyrates()
+
+# ---------------------------------------------------------------------------------------------- populations / connections
+def impl_pop(case):
+    """a circuit with a PopulationTemplate and a Connectivity: to_yaml, from_yaml, vector field at the default state.
+    Also the vector field of the `collapsed` circuit (the population's base node as ONE plain node, no connections): that is
+    what from_circuit writes today (finding C15-populations-not-written)"""
+    import numpy as np, io, contextlib, copy
+    import pyr
+    from pyrates.frontend import CircuitTemplate, NodeTemplate, OperatorTemplate
+    from pyrates.frontend.template import PopulationTemplate, Connectivity
+    def vf(c, name):
+        pyr.reset_pyrates()
+        try:
+            c = copy.deepcopy(c)
+            with contextlib.redirect_stdout(io.StringIO()):
+                f, args, names, smap = c.get_run_func(name, 1e-3, file_name=name, backend="default", solver="euler", vectorize=True,
+                                                      float_precision="float64", in_place=True, clear=False)
+            return [pyr.frac(x) for x in np.array(f(*args), dtype=np.float64).reshape(-1)]
+        finally:
+            pyr.reset_pyrates()
+    def build(collapsed):
+        o = OPLIB["opa"]
+        op = OperatorTemplate("opa", equations=list(o["equations"]), variables=dict(o["variables"]))
+        node = NodeTemplate("n", operators=[op])
+        if collapsed:
+            return CircuitTemplate("c", nodes={"p": node})
+        pop = PopulationTemplate(name="p", node=node, n=case["n"], params={"opa/k": list(case["k"])})
+        conn = Connectivity(source="p/opa/r", target="p/opa/r_in", weights=np.array(case["weights"], dtype=np.float64))
+        return CircuitTemplate("c", populations={"p": pop}, connections=[conn])
+    pyr.reset_pyrates()
+    out = {}
+    try:
+        out["vf0"] = vf(build(False), "f0")
+        out["vf_collapsed"] = vf(build(True), "fc")
+        if os.path.exists("x.yaml"):
+            os.remove("x.yaml")
+        try:
+            build(False).to_yaml("x.yaml")
+        except Exception as e:
+            out["dump_error"] = type(e).__name__
+            return out
+        pyr.reset_pyrates()
+        out["vf1"] = vf(CircuitTemplate.from_yaml("x/c"), "f1")
+        return out
+    finally:
+        if os.path.exists("x.yaml"):
+            os.remove("x.yaml")
         pyr.reset_pyrates()
 
 # ---------------------------------------------------------------------------------------------- numpy values in to_yaml
@@ -619,10 +672,25 @@ LAYOUTS = [
 ]
 DY = [0.25, 0.5, 0.75, 1.0, 1.5, 2.0, 3.0, -0.5, -1.0, 0.0]      # 0.0: a falsy value that must survive the round trip
 
+# families of dyadic values that differ (i) only at tiny magnitudes, (ii) only beyond the 5th-15th significant digit, (iii) only
+# in the sign of zero / int vs float, (iv) at huge magnitudes: distinct definitions all the same (they must get distinct keys,
+# except where Python's == calls them equal: 0.0 == -0.0, 2 == 2.0)
+CLOSE_FAMILIES = [
+    [2.0 ** -30, 3 * 2.0 ** -31, 2.0 ** -100, 5 * 2.0 ** -103, 2.0 ** -60],
+    [1.0, 1 + 2.0 ** -20, 1 + 2.0 ** -30, 1 + 2.0 ** -45, 1 - 2.0 ** -25],
+    [0.0, -0.0, 2.0 ** -40, -2.0 ** -50, 2.0 ** -1040],
+    [2, 2.0, 2 + 2.0 ** -30, 2 - 2.0 ** -40],
+    [2.0 ** 100, 2.0 ** 100 * (1 + 2.0 ** -40), 2.0 ** 100 * (1 + 2.0 ** -30), 2.0 ** 100 * (1 - 2.0 ** -45)],
+    [5 * 2.0 ** -31, 8 * 2.0 ** -31, 2 * 2.0 ** -31],
+]
+
 def gen_yaml_case(rng, mode=None):
     """mode: 'ok' (inside all guards), 'rename' (two variants of one name), 'three' (>= 3 variants), 'kind' (override of
     a non-constant variable)"""
-    mode = mode or rng.choice(["ok"] * 6 + ["rename", "three", "kind", "rename"])
+    mode = mode or rng.choice(["ok"] * 6 + ["rename", "three", "kind", "rename", "close", "close"])
+    close = mode == "close"          # same-named variants whose numbers differ only slightly (seed C15-m7): structure of `three`
+    if close:
+        mode = "three"
     hier = rng.random() < 0.35
     # overrides are fixed per (layout index, variant) so that same-named node templates are identical dicts in mode ok
     def node_for(L, variant):
@@ -667,8 +735,8 @@ def gen_yaml_case(rng, mode=None):
     def edge_tpl(vi):
         if rng.random() < 0.5:
             return None
-        o = rng.choice(["eop", "eoq"]) if mode in ("rename", "three") else "eop"
-        return dict(name="et", ops=[[o, {"g": et_variants[vi % nvar]}]])
+        o = rng.choice(["eop", "eoq"]) if mode in ("rename", "three") and not close else "eop"
+        return dict(name="et", ops=[[o, {"g": et_variants[0 if close else vi % nvar]}]])
     def make_flat(fname, nnodes):
         nodes, lays = [], {}
         if mode == "three":
@@ -699,7 +767,7 @@ def gen_yaml_case(rng, mode=None):
             if same and first is not None:
                 f, l = json.loads(json.dumps(first[0])), first[1]
             else:
-                f, l = make_flat("sub" if (mode == "ok" and same) else f"sub{i}", rng.randint(1, 2))
+                f, l = make_flat("sub" if ((mode == "ok" and same) or close) else f"sub{i}", rng.randint(1, 2))
                 first = first or (f, l)
             subs.append([f"s{i}", f]); lays[f"s{i}"] = l
         edges = []
@@ -713,6 +781,20 @@ def gen_yaml_case(rng, mode=None):
         # same-named templates must be identical dicts: node templates are named by layout and there is one variant, edge
         # templates all use eop with the one value -> nothing to do
         pass
+    if close:
+        mode = "close"
+        fam = rng.choice(CLOSE_FAMILIES)
+        wfam = rng.choice(CLOSE_FAMILIES)
+        def remap(flat):
+            for _, nd in flat["nodes"]:
+                for _, u in nd["ops"]:
+                    for v in u:
+                        u[v] = rng.choice(fam)
+            for e in flat["edges"]:
+                e[3]["weight"] = rng.choice(wfam)
+        for _, f in tree["subs"]:
+            remap(f)
+        remap(tree)
     points = [[str(Fr(rng.randint(-8, 8), 8)) for _ in range(6)] for _ in range(2)]
     return dict(kind="yaml", mode=mode, ops=OPLIB, tree=tree, points=points)
 
@@ -929,9 +1011,7 @@ def coq_circ(case):
     return f"(mkCirc {cs(tr['name'])} {subs} {c_nodes(tr['nodes'])} {c_edges(tr['edges'])})"
 
 def P8(v):
-    x = Fr(float(v)) * 8
-    assert x.denominator == 1
-    return int(x)
+    return zcode(v)
 
 def PY_SPEC(s):
     """harness-side reading of a variable definition in all its forms: 2.0, 3, "1.5", input, input(0.0), variable(float), ...
@@ -1059,6 +1139,10 @@ def check(ctx):
         cases += [gen_npy_case(ctx.rng) for _ in range(n_npy)]
         cases += [gen_mfile_case(ctx.rng) for _ in range(n_mfile)]
         cases += [dict(kind="err", what=w) for w in ERR_EXPECTED]
+        for _ in range(3 if quick else 12):
+            n = ctx.rng.randint(2, 3)
+            cases.append(dict(kind="pop", n=n, k=[ctx.rng.choice(DY[:7]) for _ in range(n)],
+                              weights=[[ctx.rng.choice([0.0, 0.5, 2.0, -0.75, 1.0]) for _ in range(n)] for _ in range(n)]))
         cases += [gen_yaml_case(ctx.rng) for _ in range(n_yaml)]
     # exhaustive jobs first: their mismatching inputs become single cases with their own replay files
     outs = [None] * len(cases)
@@ -1167,6 +1251,17 @@ def check(ctx):
         expected = ok if sw.get("fixed_numpy") else o.get("dump_error") == "RepresenterError"
         if not expected:
             bad_impl.append(i)
+    # ---- populations / connections (not written by from_circuit: open finding, class guarded by `no_populations`)
+    for i, c in enumerate(cases):
+        if c["kind"] != "pop" or i in crashed:
+            continue
+        o = outs[i]
+        if o.get("vf1") != o["vf0"]:
+            bad_spec.append(i)
+            gv.setdefault(i, []).append("no_populations")
+        # mechanism: the population's base node is written as one plain node, the connections are not written at all
+        if "dump_error" in o or o.get("vf1") != o["vf_collapsed"]:
+            bad_impl.append(i)
     # ---- loud failures
     for i, c in enumerate(cases):
         if c["kind"] == "err" and i not in crashed and outs[i] != ERR_EXPECTED[c["what"]]:
@@ -1211,7 +1306,7 @@ def check(ctx):
     # which the real code does NOT do what the model says is a different failure and is not attributed to the finding
     for i in bad_impl:
         gv.pop(i, None)
-    kinds = {k: sum(1 for c in cases if c["kind"] == k) for k in ("exh", "rep", "upd", "reuse", "npy", "mfile", "err", "yaml")}
+    kinds = {k: sum(1 for c in cases if c["kind"] == k) for k in ("exh", "rep", "upd", "reuse", "npy", "mfile", "err", "pop", "yaml")}
     ctx.note(f"E1: {kinds}; exhaustive: {stats['exhaustive_real_calls']} calls of the real replace, {stats['exhaustive_coq_evaluations']} evaluations of the "
              f"Coq model; impl-vs-Impl mismatches {len(bad_impl)}, impl-vs-Spec mismatches {len(bad_spec)} (outside guards: "
              f"{sum(1 for i in bad_spec if gv.get(i))}), harness/worker errors {len(crashed)}")
@@ -1231,6 +1326,8 @@ def check(ctx):
             return r != py_words_sided(w["eq"], w["term"], w["rep"], w["rhs"], w["lhs"])
         if w["kind"] == "reuse":
             return r["edit_after"] != w["edit"] or any(d != r["derived"][0] for d in r["derived"])
+        if w["kind"] == "pop":
+            return r.get("vf1") != r["vf0"]
         if w["kind"] == "npy":
             return "dump_error" in r or r.get("vf1") != r["vf0"]
         return not yaml_spec_ok(r)
@@ -1280,6 +1377,6 @@ def check(ctx):
                                  "definitions (PyRates' own _parse_defaults)",
                                  "Python transcriptions py_words_replace / py_loop on the exhaustive space beyond coq_model_max_len"],
                    assumptions=["replace: term non-empty and free of allowed_follow_ops characters (an identifier); terms with delimiters are compared with the "
-                                "mechanism model only", "Yaml.v covers hierarchy depth 0 and 1, operators/nodes/edges with templates and attributes; values k/8",
+                                "mechanism model only", "Yaml.v covers hierarchy depth 0 and 1, operators/nodes/edges with templates and attributes; values are dyadic floats of any magnitude, represented by an injective integer code",
                                 "equal denotation => equal dynamics is not proved (no expression semantics in this model): it is checked by the exact vector-field "
                                 "comparison of original and re-loaded circuit on every generated case"])
